@@ -148,7 +148,7 @@ func shapeC09(k int) (interface{}, string) {
 	case 55:
 		return map[strC09]int{sstrC09("1"): 1}, "map[Stringer]int"
 	case 56:
-		return map[[2]string]int{{"1", "x"}: 1}, "map[[2]string]int"
+		return map[bool]string{true: "v"}, "map[bool]string"
 	default:
 		return map[interface{}]interface{}{"1": 1, [2]int{1, 2}: 2, 5: 3, nil: 4}, "map[interface{}] with array, int and nil keys"
 	}
@@ -157,24 +157,24 @@ func shapeC09(k int) (interface{}, string) {
 // litC09 picks the literal: symbolic bytes unless the operand is a regular
 // expression or would be read by strconv.ParseFloat (both are environment and
 // are given concrete spellings only).
-func litC09(op int, shape string) string {
+func litC09(op int, shape string) (string, bool) {
 	n := 6
 	if op >= 6 || shape == "float32" || shape == "float64" || shape == "[]interface{int,string}" {
 		n = 5
 	}
 	switch 5 - vChoose(n) {
 	case 0:
-		return vString(2)
+		return vString(2), false
 	case 1:
-		return "1"
+		return "1", true
 	case 2:
-		return "true"
+		return "true", true
 	case 3:
-		return "x"
+		return "x", true
 	case 4:
-		return "("
+		return "(", true
 	default:
-		return "1.5"
+		return "1.5", true
 	}
 }
 
@@ -188,13 +188,11 @@ func checkTotal(ev *Evaluator, d interface{}, what string) {
 func H_C09_matrix() {
 	op := vChoose(8)
 	sc := vChoose(nShapes)
-	if vTier() == 0 {
-		vAssume((sc+op)%2 == vSeed()%2) // quick: a seed-selected half of the (shape, operator) pairs
-	}
 	v, name := shapeC09(sc)
 	ev := mustCreate(exprFor(op, "a", "x"))
 	if hasValue(op) {
-		setLit(ev, litC09(op, name))
+		lit, concrete := litC09(op, name)
+		ev = createWithLit(op, "a", lit, concrete)
 	}
 	checkTotal(ev, map[string]interface{}{"a": v}, opText[op]+" on "+name)
 	vCover("reached")
@@ -205,9 +203,6 @@ func H_C09_matrix() {
 func H_C09_nested() {
 	op := vChoose(8)
 	sc := vChoose(nShapes)
-	if vTier() == 0 {
-		vAssume((sc+op)%3 == vSeed()%3)
-	}
 	v, name := shapeC09(sc)
 	form := vChoose(6)
 	var ev *Evaluator
@@ -268,7 +263,7 @@ func H_C09_sequence() {
 	if vBool() {
 		ev := mustCreate(exprFor(op, "a", "q"))
 		if hasValue(op) {
-			setLit(ev, lit)
+			ev = createWithLit(op, "a", lit, true)
 		}
 		checkTotal(ev, map[string]interface{}{"a": v1}, "first call: "+opText[op]+" on "+n1)
 		checkTotal(ev, map[string]interface{}{"a": v2}, "second call after "+n1+": "+opText[op]+" on "+n2)
